@@ -1,6 +1,6 @@
 (* what a setfile text means (model/Setfile.v): one name per line, the last newline optional *)
-From Coq Require Import NArith List Lia.
-From Mtbl Require Import model.Bytes model.Setfile.
+From Coq Require Import NArith List Lia Sorting.Sorted.
+From Mtbl Require Import model.Bytes model.Order model.Setfile proofs.OrderProofs.
 Import ListNotations.
 Local Open Scope N_scope.
 
@@ -95,4 +95,57 @@ Proof.
   - cbn [map concat]. rewrite <- !app_assoc. cbn [app].
     rewrite split_lines_line by (apply Hn). cbn [rev app map]. rewrite IH.
     rewrite (proj1 (setfile_name_line setdir n Hd Hn)). reflexivity.
+Qed.
+
+(* ---- the entries kept: sorted, each path once, exactly the existing names ------------------------------------ *)
+Definition blt_rel (a b : bytes) : Prop := bcmp a b = Lt.
+
+Lemma insert_uniq_in x l y : In y (insert_uniq x l) <-> y = x \/ In y l.
+Proof.
+  induction l as [|z l IH]; cbn [insert_uniq].
+  - cbn. split; [intros [H|[]]; left; congruence|intros [H|[]]; left; congruence].
+  - destruct (bcmp x z) eqn:E.
+    + apply bcmp_eq in E. subst z. cbn. split; [intros H; right; exact H|intros [H|H]; [left; congruence|exact H]].
+    + cbn. split; [intros [H|H]; [left; congruence|right; exact H]|intros [H|H]; [left; congruence|right; exact H]].
+    + cbn [In]. rewrite IH. split; [intros [H|[H|H]]; auto|intros [H|[H|H]]; auto].
+Qed.
+
+Lemma insert_uniq_sorted x l : StronglySorted blt_rel l -> StronglySorted blt_rel (insert_uniq x l).
+Proof.
+  induction l as [|z l IH]; intros H; cbn [insert_uniq].
+  - constructor; constructor.
+  - inversion H as [|? ? Hs Hf]; subst. destruct (bcmp x z) eqn:E.
+    + exact H.
+    + constructor; [exact H|]. constructor; [exact E|].
+      apply Forall_forall. intros w Hw. rewrite Forall_forall in Hf. exact (bcmp_lt_trans _ _ _ E (Hf w Hw)).
+    + constructor; [apply IH; exact Hs|]. apply Forall_forall. intros w Hw. apply insert_uniq_in in Hw.
+      destruct Hw as [->|Hw]; [apply bcmp_lt_gt; exact E|rewrite Forall_forall in Hf; exact (Hf w Hw)].
+Qed.
+
+Lemma sort_uniq_in l y : In y (sort_uniq l) <-> In y l.
+Proof.
+  induction l as [|x l IH]; [reflexivity|]. cbn [sort_uniq fold_right]. fold (sort_uniq l).
+  rewrite insert_uniq_in, IH. cbn. split; intros [H|H]; auto.
+Qed.
+
+Lemma sort_uniq_sorted l : StronglySorted blt_rel (sort_uniq l).
+Proof.
+  induction l as [|x l IH]; [constructor|]. cbn [sort_uniq fold_right]. fold (sort_uniq l). apply insert_uniq_sorted, IH.
+Qed.
+
+Lemma sorted_nodup l : StronglySorted blt_rel l -> NoDup l.
+Proof.
+  induction 1 as [|x l Hs IH Hf]; constructor; [|exact IH].
+  intros Hi. rewrite Forall_forall in Hf. specialize (Hf x Hi). unfold blt_rel in Hf. rewrite bcmp_refl in Hf. discriminate.
+Qed.
+
+(* whatever the text: the entries are strictly ascending (hence each path once - what the theorems on model/Fileset.v
+   assume of the setfile lines), and they are exactly the names of the text whose path exists *)
+Theorem loaded_names_spec path_exists setdir text :
+  StronglySorted blt_rel (loaded_names path_exists setdir text) /\
+  NoDup (loaded_names path_exists setdir text) /\
+  (forall p, In p (loaded_names path_exists setdir text) <-> In p (setfile_names setdir text) /\ path_exists p = true).
+Proof.
+  unfold loaded_names. split; [apply sort_uniq_sorted|]. split; [apply sorted_nodup, sort_uniq_sorted|].
+  intros p. rewrite sort_uniq_in, filter_In. reflexivity.
 Qed.
